@@ -19,11 +19,11 @@ EXTENDS EduceRun
 
 \* ---------------------------------------------------------------- generics descriptors
 \* "TU"   : <T, U>
-\* "rich" : <'a, T: Bnd = u8, const N: usize> where T: Usr   (lifetime, bounded + defaulted type parameter,
-\*                                                            const parameter, user where-clause)
+\* "rich" : <'a, const N: usize, T: Bnd = u8> where T: Usr   (lifetime, const parameter, bounded + defaulted
+\*                                                            type parameter, user where-clause)
 GenDescs == {"TU", "rich"}
 TypeParamsOf(g) == IF g = "TU" THEN <<"T", "U">> ELSE <<"T">>
-ImplParamsOf(g) == IF g = "TU" THEN <<"T", "U">> ELSE <<"'a", "T:Bnd", "constN:usize">>   \* defaults dropped
+ImplParamsOf(g) == IF g = "TU" THEN <<"T", "U">> ELSE <<"'a", "constN:usize", "T:Bnd">>   \* defaults dropped
 UserWhereOf(g)  == IF g = "TU" THEN {} ELSE {"T:Usr"}
 
 \* ---------------------------------------------------------------- field type classes
